@@ -2,6 +2,7 @@ package vrt
 
 import (
 	"reflect"
+	"runtime"
 )
 
 type chanState struct {
@@ -85,3 +86,125 @@ func Close(ch any, do func()) {
 	do()
 	cs.closed = true
 }
+
+// ---- select
+
+// SelCase is one communication clause of a rewritten select statement.
+type SelCase struct {
+	ch   any
+	v    reflect.Value
+	send bool
+}
+
+func SelRecv(ch any) SelCase { return SelCase{ch: ch, v: reflect.ValueOf(ch)} }
+func SelSend(ch any) SelCase { return SelCase{ch: ch, v: reflect.ValueOf(ch), send: true} }
+
+// Select is the scheduling point of a select statement (the instrumenter turns the statement into a
+// switch over its result; the original statement is kept for free-running mode). It waits until a
+// clause can proceed (or at once, with a default clause), lets the explorer choose among the ready
+// clauses (Go chooses at random) and returns its index, -1 for default. The chosen clause then
+// performs its communication with RecvNow / RecvNow2 / SendNow without another scheduling point.
+func Select(hasDefault bool, cases ...SelCase) int {
+	s := cur
+	if s == nil {
+		panic("vrt.Select in passthrough mode")
+	}
+	t := s.cur
+	if t.abort {
+		return -2
+	}
+	if s.inInv {
+		panic("vrt.Select inside an invariant callback")
+	}
+	states := make([]*chanState, len(cases))
+	for i, c := range cases {
+		if !c.v.IsValid() || c.v.IsNil() {
+			continue // a nil channel never proceeds
+		}
+		if c.v.Cap() == 0 {
+			panic("vrt: select on an unbuffered channel under the scheduler is not supported")
+		}
+		states[i] = s.chanOf(c.ch)
+	}
+	ready := func() []int {
+		var r []int
+		for i, c := range cases {
+			cs := states[i]
+			if cs == nil {
+				continue
+			}
+			if c.send {
+				if cs.closed || c.v.Len() < c.v.Cap() {
+					r = append(r, i)
+				}
+			} else if cs.closed || c.v.Len() > 0 {
+				r = append(r, i)
+			}
+		}
+		return r
+	}
+	en := func() bool { return hasDefault || len(ready()) > 0 }
+	pc := sitePC()
+	yield := NoSiteReduction
+	var first *Obj
+	for _, cs := range states {
+		if cs == nil {
+			continue
+		}
+		if first == nil {
+			first = cs.o
+		}
+		if s.touch(t, cs.o, pc) {
+			yield = true
+		}
+	}
+	if first == nil && siteShared(pc) {
+		yield = true
+	}
+	if !yield && !en() {
+		yield = true
+	}
+	if yield {
+		t.enabled, t.pKind, t.pObj = en, "select", first
+		s.schedule(t)
+		t.enabled = nil
+	}
+	idx := -1
+	if r := ready(); len(r) > 0 {
+		idx = r[0]
+		if len(r) > 1 {
+			idx = r[Choose(len(r), "select-clause")]
+		}
+	}
+	// the statement observed every channel and acted on the chosen one
+	for i, cs := range states {
+		if cs != nil {
+			s.event(t, cs.o, i == idx, "select")
+		}
+	}
+	if s.opt.Trace {
+		s.res.Trace = append(s.res.Trace, TraceEv{Thread: t.label, Op: "select", Obj: "chan", Site: siteString(pc), VT: s.now / 1e6})
+	}
+	return idx
+}
+
+// RecvNow receives from a channel that Select found ready (no scheduling point).
+func RecvNow[T any](ch <-chan T) T {
+	v, _ := RecvNow2(ch)
+	return v
+}
+
+func RecvNow2[T any](ch <-chan T) (T, bool) {
+	select {
+	case v, ok := <-ch:
+		return v, ok
+	default:
+		panic("vrt: channel receive would block after select chose it")
+	}
+}
+
+// SelectAbort ends a thread whose Select returned -2 (the execution is being torn down).
+func SelectAbort() { runtime.Goexit() }
+
+// SendNow performs the send of the clause Select chose.
+func SendNow(ch any, do func()) { do() }
